@@ -415,13 +415,30 @@ def main(tier, seed):
         open(fb, "w", encoding="latin-1").write(btext)
         outs = {}
         full_ = {}
+        seq_ = {}
         wopt = ["-w", "limits"] if bname.startswith("warnings_only") else []
         for opt in ([], ["-B"]):
             rcb, ob, eb = sh([os.path.join(bdir, "bin", "check-express")] + opt + wopt + [fb], timeout=60, cwd=wdir)
             outs[bool(opt)] = (rcb, sorted(re.findall(r"(ERROR|WARNING) P[EW](\d+)", ob + eb)))
             full_[bool(opt)] = sorted(l_ for l_ in (ob + eb).split("\n") if re.search(r"(ERROR|WARNING) P[EW]\d+", l_))
+            seq_[bool(opt)] = [(m_.group(1), int(m_.group(2)), m_.group(3)) for m_ in re.finditer(r"^(.*?):(\d+): ((?:--ERROR PE|WARNING PW)\d+: .*)$", eb, re.M)]
         evals += 1
         hist["buffered_compared"] = hist.get("buffered_compared", 0) + 1
+        # the message buffer model (coq/ErrBuf.v, extracted): from the diagnostics in the order they are raised (the unbuffered
+        # run) it says in which batches -B prints them, each batch sorted by line: the order of the lines must be that one
+        if seq_[False] and outs[True] == outs[False] and full_[True] == full_[False]:
+            req_ = "B " + " ".join("%d:%d:%d:%d" % (len(fn_), len(str(ln_)), len(tx_.split(": ", 1)[1]), ln_) for (fn_, ln_, tx_) in seq_[False])
+            rcm_, mo_, me_ = sh([drv], input=(req_ + "\n").encode(), timeout=60)
+            hist["buffer_model_compared"] = hist.get("buffer_model_compared", 0) + 1
+            mparts_ = mo_.strip().split(" ; ") if mo_.startswith("B ") else None
+            morder_ = [int(x_) for x_ in mparts_[0].split()[1:]] if mparts_ else None
+            if morder_ != [ln_ for (_f, ln_, _t) in seq_[True]] or (mparts_ and "!" in mparts_[-1]):
+                disagreements += 1
+                pth_ = save("c20-buffered-%s.exp" % re.sub(r"\W", "_", bname)[:50], btext)
+                res.violation("-B prints the diagnostics of %s in the line order %s..., the message-buffer model (batches of what fits, each sorted) says %s... (%s)" % (
+                    bname, [ln_ for (_f, ln_, _t) in seq_[True]][:12], (morder_ or [])[:12], (mparts_ or ["?"])[-1][:80]),
+                    {"theorem_or_correspondence": "correspondence C20: coq/ErrBuf.v vs error.c (message buffer of -B)", "input_file": pth_,
+                     "replay": "%s/bin/check-express -B %s" % (bdir, pth_)}, found_input=False)
         if outs[True] == outs[False] and full_[True] != full_[False]:
             # the same diagnostics, but not the same text: a message cut short or run into the next one
             oracle_fail += 1
@@ -435,6 +452,27 @@ def main(tier, seed):
             res.violation("with -B the diagnostics of %s are %s (status %d), without it %s (status %d)" % (
                 bname, ["PE" + c for _k, c in outs[True][1]], outs[True][0], ["PE" + c for _k, c in outs[False][1]], outs[False][0]),
                 {"input_file": pth_, "replay": "%s/bin/check-express -B %s" % (bdir, pth_)})
+    if not pr["ok"] and re.search(r"ErrBuf", " ".join(pr["failed"]) + pr["log"]):
+        # the message-buffer theorem broke: look for a schema whose -B output is not its unbuffered output, over name lengths
+        # that move every message across the end of the buffer
+        found_ = False
+        for nl_ in list(range(20, 420, 1)):
+            btext = "SCHEMA bs;\nENTITY a;\n" + "".join("  x%d : %s%d;\n" % (j, "n" * nl_, j) for j in range(60)) + "END_ENTITY;\nEND_SCHEMA;\n"
+            fb = os.path.join(wdir, "buffered.exp")
+            open(fb, "w", encoding="latin-1").write(btext)
+            t_ = {}
+            for opt in ([], ["-B"]):
+                rcb, ob, eb = sh([os.path.join(bdir, "bin", "check-express")] + opt + [fb], timeout=60, cwd=wdir)
+                t_[bool(opt)] = (rcb, sorted(l_ for l_ in (ob + eb).split("\n") if l_.strip()))
+            evals += 1
+            if t_[True] != t_[False]:
+                pth_ = save("c20-buffered-search-%d.exp" % nl_, btext)
+                dl_ = [l_ for l_ in t_[True][1] if l_ not in t_[False][1]]
+                res.violation("with -B the output for 60 undefined types named with %d characters differs from the unbuffered output (status %d / %d), e.g. %r" % (
+                    nl_, t_[True][0], t_[False][0], (dl_[:1] or [""])[0][-120:]), {"input_file": pth_, "replay": "%s/bin/check-express -B %s" % (bdir, pth_)})
+                found_ = True
+                break
+        hist["buffer_search"] = "a failing input was %sfound" % ("" if found_ else "not ")
     shutil.rmtree(wdir, ignore_errors=True)
     if not pr["ok"]:
         res.violation("Properties_C20.v no longer checks (%s)" % ", ".join(pr["failed"] or ["see log"]),
